@@ -15,13 +15,13 @@ Local Open Scope nat_scope.
 Theorem C13_user_copy_fresh : forall h o h' o', user_copy h o = Ok (h', o') ->
   (forall x, x < length h -> hget h' x = hget h x) /\
   (forall x, In x (reach h' o') -> length h <= x < length h').
-Proof. intros h o h' o' H. split; [apply (user_copy_frame _ _ _ _ H)|exact (user_copy_fresh _ _ _ _ H)]. Qed.
+Proof. exact user_copy_fresh_frame. Qed.
 Print Assumptions C13_user_copy_fresh.
 
 Theorem C13_channel_copy_fresh : forall h o h' o', channel_copy h o = Ok (h', o') ->
   (forall x, x < length h -> hget h' x = hget h x) /\
   (forall x, In x (reach h' o') -> length h <= x < length h').
-Proof. intros h o h' o' H. split; [apply (channel_copy_frame _ _ _ _ H)|exact (channel_copy_fresh _ _ _ _ H)]. Qed.
+Proof. exact channel_copy_fresh_frame. Qed.
 Print Assumptions C13_channel_copy_fresh.
 
 Theorem C13_user_copy_value : forall h o h' o', user_copy h o = Ok (h', o') ->
